@@ -339,7 +339,7 @@ func TopFrame(stack string) string {
 		if strings.HasPrefix(l, "\t") || l == "" || strings.HasPrefix(l, "goroutine ") {
 			continue
 		}
-		if strings.HasPrefix(l, "runtime") || strings.HasPrefix(l, "panic(") || strings.Contains(l, "verif/mc/core") || strings.HasPrefix(l, "reflect.") {
+		if strings.HasPrefix(l, "runtime") || strings.HasPrefix(l, "panic(") || strings.HasPrefix(l, "verif/mc/") || strings.HasPrefix(l, "created by") || strings.HasPrefix(l, "reflect.") {
 			continue
 		}
 		// function line, e.g. github.com/x/y.(*T).M(...)
